@@ -131,6 +131,147 @@ def sweep(budget_s=120):
     return {"cases": n, "bad": bad}
 
 
+# ----------------------------------------------------------------------------- generated packages x edits at random public / private locations
+def gen_package(rnd):
+    """-> (files, catalogue of objects): modules pub0/pub1 (public) and _impl (private); every module lists its public names in __all__;
+    pkg/__init__ re-exports some objects (listed in its __all__) and merely imports others."""
+    import random  # noqa: F401
+    mods, objects = {}, []
+    for mname in ("pub0", "pub1", "_impl"):
+        lines, exported = [], []
+        n_obj = rnd.randint(2, 4)
+        for i in range(n_obj):
+            private = rnd.random() < 0.3
+            name = ("_" if private else "") + f"{rnd.choice(['alpha', 'beta', 'gamma', 'delta'])}{i}"
+            kind = rnd.choice(["attribute", "function", "class", "class_with_base"])
+            if kind == "attribute":
+                text = f"{name} = {rnd.randint(1, 9)}\n"
+            elif kind == "function":
+                text = f"def {name}(a, b=1):\n    return a\n"
+            else:
+                base = "(Root)" if kind == "class_with_base" else ""
+                text = f"class {name}{base}:\n    member = {rnd.randint(1, 9)}\n    _hidden = 0\n    def method(self, x):\n        return x\n"
+            lines.append(text)
+            if not private:
+                exported.append(name)
+            objects.append({"module": mname, "name": name, "kind": "class" if kind.startswith("class") else kind, "has_base": kind == "class_with_base",
+                            "private_name": private, "text": text})
+        head = "class Root:\n    root_member = 0\n" if any(o["has_base"] and o["module"] == mname for o in objects) else ""
+        mods[mname] = (head, lines, exported)
+    # re-exports from the package __init__
+    reexp, imported_only = [], []
+    for o in objects:
+        if o["private_name"]:
+            continue
+        r = rnd.random()
+        if r < 0.35:
+            reexp.append(o)
+        elif r < 0.5:
+            imported_only.append(o)
+    seen_names = set()
+    init = []
+    for o in reexp + imported_only:
+        if o["name"] in seen_names:
+            continue
+        seen_names.add(o["name"])
+        init.append(f"from pkg.{o['module']} import {o['name']}\n")
+        o["reexported"] = o in reexp
+        o["imported_in_init"] = True
+    init.append("__all__ = [" + ", ".join(repr(o["name"]) for o in reexp if o.get("imported_in_init") and o.get("reexported")) + "]\n")
+    files = {"pkg/__init__.py": "".join(init)}
+    for mname, (head, lines, exported) in mods.items():
+        files[f"pkg/{mname}.py"] = head + "".join(lines) + "__all__ = [" + ", ".join(repr(n) for n in exported + (["Root"] if head else [])) + "]\n"
+    for o in objects:
+        module_public = not o["module"].startswith("_")
+        o["public"] = (not o["private_name"]) and (module_public or bool(o.get("reexported")))
+    return files, objects
+
+
+def gen_edit(rnd, files, objects):
+    """-> (description, new files, breaking?, object) for one edit at a random location."""
+    o = rnd.choice(objects)
+    rel = f"pkg/{o['module']}.py"
+    new = dict(files)
+    kinds = ["remove", "rekind", "add_object", "add_optional_parameter"]
+    if o["kind"] == "attribute":
+        kinds.append("change_value")
+    if o["kind"] == "class":
+        kinds += ["remove_member", "change_member_value", "change_hidden_member"] + (["remove_base"] if o["has_base"] else [])
+    e = rnd.choice(kinds)
+    src = files[rel]
+    drop_from_all = lambda text: text.replace(repr(o["name"]) + ", ", "").replace(", " + repr(o["name"]), "").replace(repr(o["name"]), "")  # noqa: E731
+    breaking = o["public"]
+    if e == "remove":
+        new[rel] = drop_from_all(src.replace(o["text"], "", 1))
+        if o.get("imported_in_init"):
+            new["pkg/__init__.py"] = drop_from_all(files["pkg/__init__.py"].replace(f"from pkg.{o['module']} import {o['name']}\n", ""))
+    elif e == "rekind":
+        repl = f"def {o['name']}():\n    pass\n" if o["kind"] != "function" else f"{o['name']} = 0\n"
+        new[rel] = src.replace(o["text"], repl, 1)
+    elif e == "change_value":
+        new[rel] = src.replace(o["text"], f"{o['name']} = 'changed'\n", 1)
+    elif e == "remove_base":
+        new[rel] = src.replace(o["text"], o["text"].replace("(Root)", "", 1), 1)
+    elif e == "remove_member":
+        new[rel] = src.replace(o["text"], o["text"].replace("    def method(self, x):\n        return x\n", "", 1), 1)
+    elif e == "change_member_value":
+        new[rel] = src.replace(o["text"], o["text"].replace("    member = ", "    member = 7", 1), 1)
+    elif e == "change_hidden_member":
+        new[rel] = src.replace(o["text"], o["text"].replace("    _hidden = 0", "    _hidden = 1", 1), 1)
+        breaking = False
+    elif e == "add_object":
+        new[rel] = f"brand_new_{rnd.randint(0, 99)} = 1\n" + src
+        breaking = False
+    else:
+        if o["kind"] != "function":
+            return None
+        new[rel] = src.replace(o["text"], o["text"].replace("(a, b=1)", "(a, b=1, *, extra=None)"), 1)
+        breaking = False
+    if new == files:
+        return None
+    return f"{e} {o['module']}.{o['name']} ({'public' if o['public'] else 'not public'})", new, breaking, o
+
+
+def random_histories(seed, n, budget_s):
+    import random
+    rnd = random.Random(seed)
+    t0 = time.time()
+    bad, cases, sigs = [], 0, set()
+    for _ in range(n):
+        if time.time() - t0 > budget_s or len(bad) >= 5:
+            break
+        files, objects = gen_package(rnd)
+        ed = None
+        for _try in range(5):
+            ed = gen_edit(rnd, files, objects)
+            if ed:
+                break
+        if not ed:
+            continue
+        desc, new_files, breaking, o = ed
+        with tempfile.TemporaryDirectory() as t1, tempfile.TemporaryDirectory() as t2:
+            write(t1, files)
+            write(t2, new_files)
+            cases += 1
+            try:
+                brs = list(find_breaking_changes(load(t1), load(t2)))
+            except BaseException as e:  # noqa: BLE001
+                pr = [f"comparison aborted with {type(e).__name__}: {str(e)[:80]}"]
+            else:
+                reported = [(type(b).__name__, b.obj.path) for b in brs]
+                pr = []
+                if breaking and not any(o["name"] in path.split(".") for _, path in reported):
+                    pr.append(f"'{desc}' is incompatible for users but nothing is reported against {o['name']}: {reported}")
+                if not breaking and reported:
+                    pr.append(f"'{desc}' changes nothing users can rely on but is reported: {reported}")
+            if pr:
+                sig = "history:" + desc.split(" ")[0] + (":public" if o["public"] else ":not-public") + (":reexported" if o.get("reexported") else "") + (":private-module" if o["module"].startswith("_") else "")
+                if sig not in sigs:
+                    sigs.add(sig)
+                    bad.append({"edit": desc, "problems": pr, "old": files, "new": {k: v for k, v in new_files.items() if files.get(k) != v}, "signature": sig})
+    return {"cases": cases, "bad": bad}
+
+
 def replay_edit_scripts(w, obligation, expects):
     r = sweep(90)
     b = r["bad"]
@@ -138,4 +279,7 @@ def replay_edit_scripts(w, obligation, expects):
 
 
 if __name__ == "__main__":
-    print(json.dumps(sweep(int(sys.argv[1]) if len(sys.argv) > 1 else 120)))
+    if len(sys.argv) > 1 and sys.argv[1] == "random":
+        print(json.dumps(random_histories(int(sys.argv[2]), int(sys.argv[3]), float(sys.argv[4]))))
+    else:
+        print(json.dumps(sweep(int(sys.argv[1]) if len(sys.argv) > 1 else 120)))
